@@ -2,7 +2,7 @@
 (* T-specification for C10.  Events come from the real conversions (harness/drivers/c10.py).               *)
 (*   kind "norm" / "comb": one conversion cv applied to one term x                                          *)
 (*      [tid, kind, cv, ty ("nat"|"int"|"real"|"bool"), mode, x, ax (the abstract vector x was built from), *)
-(*       conds (propositions of the supplied conditions),                                                   *)
+(*       conds (hypotheses of the supplied condition theorems),                                             *)
 (*       pt  = [o |-> "ok"|"conv"|"other", exc, th |-> [h, c]]   cv.get_proof_term(x).th                     *)
 (*       ev  = the same for cv.eval(x) (o = "none" when the class has no fast evaluation of its own: then     *)
 (*       eval IS get_proof_term(x).th);  chk = the same for theory.check_proof(pt.export());                 *)
